@@ -49,6 +49,23 @@ CHECKS = {
              "free-text literals stop only at their own delimiter, the "
              "backslash arm keeps escaped delimiters in the payload.",
         ref="DESIGN.md §3 C03"),
+    "C08": dict(
+        technique="call-site conformance analysis of every vectorise(...) "
+                  "fallback against the enclosing function's signature, "
+                  "frozen instance list with overload-key inventory, "
+                  "structural check of the pairing tables of vectorise/vy_zip",
+        category="other",
+        text="Structural necessary conditions for all vectorising elements: "
+             "every vectorise(F, ...) call is a conformant self fallback "
+             "(same function, own value parameters bare and in order) or a "
+             "reviewed exception; the 107 functions confirmed as vectorising "
+             "keep such a fallback and claim no new list-containing kind "
+             "tuple; eager and lazy lists reach the fallback alike; the "
+             "helper's pairing rows iterate exactly the list-kinded "
+             "parameters, keep scalars fixed and argument order, pair two "
+             "lists through vy_zip, which zero-fills. Does not decide the "
+             "scalar arms' results.",
+        ref="DESIGN.md §3 C08"),
     "C09": dict(
         technique="abstract stack-effect analysis of every extracted "
                   "template AST (allowed-use typestate of the `stack` "
